@@ -194,20 +194,18 @@ theorem add_response_preserves (c : ClientForm) (rm : RespMeta) (sink : Sink) (k
   cases c <;> simp only
   case grpc =>
     have hc : (ClientForm.grpc == ClientForm.grpc) = true := by decide
-    simp only [hc, if_true]
     cases he : rm.end with
     | none =>
-      simp only
+      simp only [hc, if_true, Option.isNone_none, Bool.and_self]
       split <;> split <;> simp only [hadd, hfadd, hGE, hGA, hCT]
     | some e =>
       have := foldl_setRaw_values id e.trailers (sink.hdr.set (s "Content-Type") (s "application/grpc+" ++ rm.codec)) k
         (fun t ht => (ha e he t ht).1)
       simp only [id] at this
-      simp only [writeEndToHeaders]
-      split <;> split <;> simp only [hadd, hfadd, this, hCT]
+      simp only [hc, if_true, Option.isNone_some, Bool.and_false, Bool.false_eq_true, if_false, writeEndToHeaders, this, hCT]
   case grpcWeb =>
     have hc : (ClientForm.grpcWeb == ClientForm.grpc) = false := by decide
-    simp only [hc, Bool.false_eq_true, if_false]
+    simp only [hc, Bool.false_and, Bool.false_eq_true, if_false]
     cases he : rm.end with
     | none => simp only [hGE, hGA, hCT]
     | some e =>
